@@ -111,6 +111,8 @@ pub fn base_b2(enc: TextEncoding) -> Automerge {
         tx.put(&lx, 2, automerge::ScalarValue::counter(50))?;
         // text element 'c' gets a multi-unit value that loses against y's "z" ...
         tx.put(&tx_, 3, "👨\u{200d}👩\u{200d}👧")?;
+        // ... and so does map key `e` (a counter that loses against y's string)
+        tx.put(ROOT, "e", automerge::ScalarValue::counter(1))?;
         Ok(())
     });
     must(&mut x, |tx| {
@@ -129,6 +131,7 @@ pub fn base_b2(enc: TextEncoding) -> Automerge {
         tx.increment(ROOT, "c", 2)?;
         tx.put(&ly, 2, "q")?;
         tx.put(&ty, 2, "z")?;
+        tx.put(ROOT, "e", "s")?;
         Ok(())
     });
     let mut y1 = y.clone();
@@ -137,6 +140,8 @@ pub fn base_b2(enc: TextEncoding) -> Automerge {
         // ... and y deletes its own "z" without having seen x's value: merged in a later batch, this
         // exposes the losing multi-unit value (the element comes back with x's value)
         tx.delete(&ty, 3)?;
+        // the same for map key `e`: its losing counter is exposed by this delete
+        tx.delete(ROOT, "e")?;
         Ok(())
     });
     let mut d = b1;
